@@ -273,7 +273,7 @@ class Gen:
                 return [["expr", self.expr()]]
             nm = r.choice(NAMES)
             bases = [self.load()] if r.random() < .2 else []
-            kws = [self.expr(2)] if (not self.execd and r.random() < .1) else []
+            kws = [self.expr(2)] if r.random() < .1 else []      # the executed stream's __build_class__ drops keywords
             s = ["class", nm, bases, self.decos(), kws, self.block(d + 1)]
             if self.execd:
                 return [s, ["assign", [["n", nm]], ["op", "call", [["load", REG, []], ["load", nm, []]]]]]
